@@ -21,6 +21,7 @@ import Gzx.Driver.C15
 import Gzx.Driver.C16
 import Gzx.Driver.C17
 import Gzx.Driver.C18
+import Gzx.Driver.C18Gen
 import Gzx.Driver.C19
 import Gzx.Driver.C20
 namespace Gzx.Driver
@@ -51,6 +52,7 @@ def dispatch (line : String) : String :=
   | "c16" :: rest => C16.handle rest
   | "c17" :: rest => C17.handle rest
   | "c18" :: rest => C18.handle rest
+  | "c18g" :: rest => C18Gen.handle rest
   | "c19" :: rest => C19.handle rest
   | "c20" :: rest => C20.handle rest
   | _ => "bad-suite"
